@@ -7,15 +7,15 @@ CONSTANTS
   Windows = {1}
   LeaderCandidates <- Leader3
   HeartbeatCandidates <- HbW1
-  Proposable = {"Heartbeat", "Redemption"}
+  Proposable = {"Heartbeat"}
   SignableActions = {"Heartbeat"}
-  LeaderFaults = {"silent", "disallowed"}
+  LeaderFaults = {"disallowed"}
   FaultyWallets = {"w1"}
   Hazard = "none"
   Loss = {"w1"}
   Offline = FALSE
   SeedFailures = FALSE
-  Slow = {"w1"}
+  Slow = {}
   Lateness = FALSE
   AttemptsLimit = 2
   F <- C_F
